@@ -19,7 +19,7 @@ NsTwo == {2, 3}
 NsOne == {2}
 A == <<"a">>
 B == <<"b", "<CR>", "c">>                     \* a carriage return is not a line boundary
-C == <<"<VT>", "d", "<NEL>", "<LS>", "e", "<FF>", "<FS>", "<GS>", "<RS>", "<PS>">>
+C == <<"<VT>", "d", "<NEL>", "<LS>", "U", "<FF>", "<FS>", "<GS>", "<RS>", "<PS>">>     \* U: a non-ASCII letter
 E == <<>>
 ShapesFull == {<<A>>, <<A, E, B>>, <<E, A>>, <<E>>, <<B, C, A>>, <<A, E>>, <<C, E, E>>, <<E, E, E>>}
 ShapesFew == {<<A>>, <<A, E, B>>, <<C, E, E>>}
